@@ -1,4 +1,4 @@
-from . import check_world
+from . import check_world, check_wrap
 PROP = "C08"
 def run(tier, seed, t0, H):
-    return check_world.run(PROP, tier, seed, t0, H)
+    return check_world.run(PROP, tier, seed, t0, H, second=check_wrap.extra)
